@@ -117,8 +117,15 @@ def poly_eval(poly, xs):
     return s
 
 
-def run_interp(method, grids, table, extrap, pts, history=False):
+def run_interp(method, grids, table, extrap, pts, history=False, calls=None):
     it = InterpND(method=method, points=tuple(grids), values=table, extrapolate=extrap)
+    if calls:
+        # one interpolant object, a sequence of calls with one or several points each
+        out, k = [], 0
+        for n in calls:
+            out += [float(v) for v in np.ravel(it.interpolate(pts[k:k + n].copy()))]
+            k += n
+        return out
     if history:
         # one interpolant object, one single-point call per query (the object keeps its bracket indices
         # and coefficient caches from call to call)
@@ -126,7 +133,7 @@ def run_interp(method, grids, table, extrap, pts, history=False):
     return it.interpolate(pts)
 
 
-def run_comp(method, grids, table, extrap, pts, history=False):
+def run_comp(method, grids, table, extrap, pts, history=False, calls=None):
     nd = len(grids)
     if history:
         comp = om.MetaModelStructuredComp(method=method, extrapolate=extrap, vec_size=1)
@@ -195,7 +202,7 @@ def handle(c):
     exact = c['cmp'] == 'exact'
     name = method if c['variant'] == 'general' else '%dD-%s' % (nd, method)
     kind = '%s/%s/%dD/%s/%s%s' % (name, c['via'], nd, 'extrap' if extrap else 'strict', c.get('pkind', ''),
-                               '/history' if c.get('history') else '')
+                               ('/calls' if c.get('calls') else '/history') if c.get('history') else '')
 
     outside = [(j, i) for j, pt in enumerate(pfr) for i in range(nd)
                if pt[i] < gfr[i][0] or pt[i] > gfr[i][-1]]
@@ -205,7 +212,7 @@ def handle(c):
     runner = run_comp if c['via'] == 'comp' else run_interp
     vals, exc = None, None
     try:
-        vals = np.array(runner(name, grids, table, extrap, pts, bool(c.get('history'))), dtype=float).ravel()
+        vals = np.array(runner(name, grids, table, extrap, pts, bool(c.get('history')), c.get('calls')), dtype=float).ravel()
     except Exception as e:   # noqa
         exc = e
 
